@@ -267,6 +267,10 @@ def main():
         os.makedirs(os.path.join(ROOT, "evidence"), exist_ok=True)
         with open(os.path.join(ROOT, "evidence", "%s.json" % pid), "w") as f:
             json.dump(evidence, f, indent=1, default=str)
+        if tier == "thorough":
+            os.makedirs(os.path.join(ROOT, "evidence", "thorough"), exist_ok=True)
+            with open(os.path.join(ROOT, "evidence", "thorough", "%s.json" % pid), "w") as f:
+                json.dump(evidence, f, indent=1, default=str)
     print("SUMMARY property=%s tier=%s obligations=%d confirmed=%d violations=%d known=%d inconclusive=%d harness_errors=%d paths=%d solver_cpu=%.0fs wall=%.0fs" % (
         pid, tier, len(records), len(confirmed), len(violations), len(known_lines), len(inconclusive), len(harness_errors),
         evidence["coverage"]["evaluations"], solver_cpu, wall), flush=True)
